@@ -82,6 +82,21 @@ class Slots:
                 if sg(callee_of(t)) == IS_SEQ:
                     sw = self.switch_on_call_result(b, bb, t)
                     if sw is None:
+                        # the result is stored / negated first (`let is_parallel = !params.is_sequential(); if is_parallel ..`):
+                        # find the switch whose scrutinee term is the call's value under an even / odd number of negations
+                        r = ctx.run0(b.name)
+                        c = r.calls.get(bb)
+                        for sbb2, (d, tg) in (r.switches.items() if c is not None else ()):
+                            neg = False
+                            x = d
+                            while x is not None and x[0] == 'un' and x[1] == 'Not':
+                                neg = not neg
+                                x = x[2]
+                            if x == c['res'] and len(tg) > 1:
+                                t1, t0 = r.switch_target(sbb2, 1), r.switch_target(sbb2, 0)
+                                sw = (sbb2, t0, t1) if neg else (sbb2, t1, t0)
+                                break
+                    if sw is None:
                         continue
                     sbb, tt, ft = sw
                     self.seq_switches.append((b.name, bb, sbb, tt, ft))
